@@ -3,7 +3,8 @@
 
 Both propagators build `FourierFilter(input_grid, transfer_function, q)`:
 
-* padded (internal) size per axis `M = round(q·N)` (`np.round`, half to even); Fresnel takes
+* padded (internal) size per axis `M = round(q·N)` (`np.round`, half to even) with `q` per axis (a scalar `zero_padding` is broadcast,
+  an array pads each axis by its own factor — possibly only one axis); Fresnel takes
   `q = zero_padding`, angular spectrum always `q = 2`;
 * the input is written into `internal[start : start+N]`, `start = ⌊M/2⌋ - ⌊N/2⌋` (no cut-out when
   `M = N`), transformed with `fftn`, multiplied by the transfer function sampled on the internal
@@ -33,8 +34,10 @@ structure Params where
   lam : Rat
   z : Rat
   n : Rat          -- refractive index
-  q : Rat          -- zero_padding (ignored for angular: 2)
-  s : Nat          -- num_oversampling (already rounded to an integer ≥ 1)
+  qx : Rat         -- zero_padding along x (ignored for angular: 2); a scalar argument is broadcast
+  qy : Rat         -- zero_padding along y
+  sx : Nat         -- num_oversampling along x (already rounded to an integer ≥ 1); a scalar is broadcast
+  sy : Nat         -- num_oversampling along y
 deriving Repr
 
 def ratAbs (q : Rat) : Rat := if q < 0 then -q else q
@@ -49,14 +52,15 @@ def roundHalfEven (q : Rat) : Int :=
   else if 1/2 < r then fl + 1
   else if fl % 2 = 0 then fl else fl + 1
 
-def effQ (p : Params) : Rat := match p.kind with | .fresnel => p.q | .angular => 2
+def effQx (p : Params) : Rat := match p.kind with | .fresnel => p.qx | .angular => 2
+def effQy (p : Params) : Rat := match p.kind with | .fresnel => p.qy | .angular => 2
 
 /-- Padded size of one axis: `round(q·N)` (the repaired, integer `make_fft_grid`; the unrepaired
 float recomputation `int(N·(round(qN)/N))` can land one short — finding D4, owned by C01). -/
-def padded (p : Params) (N : Nat) : Nat := (roundHalfEven (effQ p * (N : Rat))).toNat
+def padded (q : Rat) (N : Nat) : Nat := (roundHalfEven (q * (N : Rat))).toNat
 
-def mx (p : Params) : Nat := padded p p.nx
-def my (p : Params) : Nat := padded p p.ny
+def mx (p : Params) : Nat := padded (effQx p) p.nx
+def my (p : Params) : Nat := padded (effQy p) p.ny
 
 /-- `L_max = max(dims · delta)`. -/
 def lmax (p : Params) : Rat := ratMax ((p.nx : Rat) * p.dx) ((p.ny : Rat) * p.dy)
@@ -106,7 +110,7 @@ def frac (q : Rat) : Rat := q - (q.floor : Rat)
 /-- All sub-sample frequencies of internal pixel `(ix, iy)`, in the order in which
 `make_uniform_grid(oversampling, 1).points` enumerates the dithers (x fastest). -/
 def subFreqs (p : Params) (ix iy : Nat) : List (Rat × Rat) :=
-  (dithers p.s).flatMap fun dy => (dithers p.s).map fun dx =>
+  (dithers p.sy).flatMap fun dy => (dithers p.sx).map fun dx =>
     (nu p.dx (mx p) ix dx, nu p.dy (my p) iy dy)
 
 /-- Fresnel: phases (turns mod 1) of the sub-samples whose mean is the transfer function at `(ix,iy)`. -/
@@ -137,7 +141,7 @@ def fresnelIrTurns (p : Params) (x y : Rat) : Rat :=
 /-- Sub-sample points of row `jy` of the enlarged grid: for every `jx`, all `s²` dithers. -/
 def irRowPoints (p : Params) (jy : Nat) : List (Rat × Rat) :=
   (List.range (mx p)).flatMap fun jx =>
-    (dithers p.s).flatMap fun dy => (dithers p.s).map fun dx =>
+    (dithers p.sy).flatMap fun dy => (dithers p.sx).map fun dx =>
       (xCoord p.dx (mx p) jx dx, xCoord p.dy (my p) jy dy)
 
 def fresnelIrRow (p : Params) (jy : Nat) : List Rat :=
@@ -164,8 +168,8 @@ def nuMaxAbs (δ : Rat) (M s : Nat) : Rat :=
 
 /-- Smallest radicand over everything the transfer function samples. -/
 def minRadicand (p : Params) : Rat :=
-  let a := nuMaxAbs p.dx (mx p) p.s
-  let b := nuMaxAbs p.dy (my p) p.s
+  let a := nuMaxAbs p.dx (mx p) p.sx
+  let b := nuMaxAbs p.dy (my p) p.sy
   radicand p a b
 
 /-- No evanescent wave is sampled (`k_z` real everywhere). -/
@@ -180,16 +184,16 @@ parameters only (`withParam` then any of the functions above). -/
 inductive Setter where
   | distance (z : Rat)
   | refractiveIndex (n : Rat)
-  | oversampling (s : Nat)
-  | zeroPadding (q : Rat)
+  | oversampling (sx sy : Nat)
+  | zeroPadding (qx qy : Rat)
   | wavelength (lam : Rat)
 deriving Repr
 
 def withParam (p : Params) : Setter → Params
   | .distance z => { p with z := z }
   | .refractiveIndex n => { p with n := n }
-  | .oversampling s => { p with s := s }
-  | .zeroPadding q => { p with q := q }
+  | .oversampling sx sy => { p with sx := sx, sy := sy }
+  | .zeroPadding qx qy => { p with qx := qx, qy := qy }
   | .wavelength lam => { p with lam := lam }
 
 /-- The parameters in force after a sequence of setter calls. -/
